@@ -51,6 +51,8 @@ def _typed_units(main):
 ENGINES = {
     "e_static": {"dir": "e_static", "units": _static_units()},
     "e_seg": {"dir": "e_seg", "units": _typed_units("e_seg.cpp")},
+    "e_mapped": {"dir": "e_mapped", "units": [("inst.cpp", {"VF_KEY": t, "VF_KEYID": i}) for t, i in [
+        ("uint16_t", "u16"), ("int16_t", "i16"), ("uint32_t", "u32"), ("int32_t", "i32"), ("uint64_t", "u64"), ("int64_t", "i64")]] + [("e_mapped.cpp", {})]},
     "e_variants": {"dir": "e_variants", "units": [
         ("inst.cpp", {"VF_KEY": "uint8_t", "VF_KEYID": "u8", "VF_KEYBITS": "8"}),
         ("inst.cpp", {"VF_KEY": "uint16_t", "VF_KEYID": "u16", "VF_KEYBITS": "16"}),
@@ -74,6 +76,10 @@ CHECKS = {
             "quick": {"shards": 8, "cases": 3000}, "thorough": {"shards": 16, "cases": 100000}},
     "C10": {"engine": "e_variants",
             "quick": {"shards": 8, "cases": 3000}, "thorough": {"shards": 16, "cases": 100000}},
+    "C11": {"engine": "e_mapped",
+            "quick": {"shards": 8, "cases": 2000}, "thorough": {"shards": 16, "cases": 40000}},
+    "C12": {"engine": "e_mapped",
+            "quick": {"shards": 8, "cases": 1500}, "thorough": {"shards": 16, "cases": 30000}},
     "C07": {"engine": "e_static",
             "quick": {"shards": 8, "cases": 4000}, "thorough": {"shards": 16, "cases": 120000}},
 }
